@@ -82,4 +82,18 @@ theorem toTreeItems_each (W : World) (fuel : Nat) (s' : Schema) (virt : Bool) (m
 example : maskValue ['*'] (.str "hello".toList) = .str "*****".toList ∧ maskValue "<hidden>".toList (.str "hello".toList) = .str "<hidden>".toList ∧
     maskValue ['*'] (.str []) = .none ∧ maskValue [] (.str "x".toList) = .str [] := by decide
 
+/-- **a one-character mask is repeated to the value's length, whatever the length** (no cap: the round-9 change C10-r9-1 cut the run
+    at 64 characters), and every other mask is written verbatim -/
+theorem one_char_mask_length (ch : Char) (s : Str) (hs : s ≠ []) :
+    maskValue [ch] (.str s) = .str (List.replicate s.length ch) ∧ (List.replicate s.length ch).length = s.length := by
+  refine ⟨?_, by simp⟩
+  cases s with
+  | nil => exact absurd rfl hs
+  | cons a t => simp [maskValue, Val.truthy, strLen]
+
+theorem other_mask_verbatim (mask : Str) (s : Str) (hs : s ≠ []) (hm : mask.length ≠ 1) : maskValue mask (.str s) = .str mask := by
+  cases s with
+  | nil => exact absurd rfl hs
+  | cons a t => simp [maskValue, Val.truthy, hm]
+
 end Cinco.C10
